@@ -26,7 +26,7 @@ func checkC14(c *Ctx) {
 		"nondeterministic source (math/rand, time, os, runtime, unsafe, pointer values) or ranges over a map. Not decided: 64-bit " +
 		"collisions, truncated bodies (gob run-time behaviour), entry equality (C13)."
 	r.Rule("R14.1", "Export gates dominate Dump; refusals are non-200", 1)
-	r.Rule("R14.2", "Import: restore only on 200, cache/name/response of the same iteration, same hash rendering", 1)
+	r.Rule("R14.2", "Import: restore only on 200, cache/name/response of the same iteration, same hash rendering; no goroutine captures the loop's variables", 2)
 	r.Rule("R14.3", "hash update discipline: ^= of a fresh per-value fingerprint, guarded by and paired with the type set; globals reset together", 2)
 	r.Rule("R14.4", "fingerprint is a function of the type only (no nondeterministic source reachable, no map iteration)", 1)
 	r.NotDecided = []string{"fingerprint collisions", "truncated response bodies", "equality of transferred entries (C13)"}
@@ -34,6 +34,7 @@ func checkC14(c *Ctx) {
 	c.c14Import()
 	c.c14Register()
 	c.c14Determinism()
+	c.rangeVarCapturedByGo("R14.2", func(name string) bool { return strings.HasPrefix(name, "HTTPTransfer.") })
 }
 
 func transferPolicy() pw.Policy {
@@ -200,7 +201,7 @@ func (c *Ctx) c14Import() {
 			if rt == nil {
 				reqFailed := false
 				for _, ev := range g.events {
-					if ev.Kind == pw.EvCall && ev.Role == "Std:http.NewRequest" && len(ev.Results) == 2 && nilTri(p, ev.Results[1]) == triFalse {
+					if ev.Kind == pw.EvCall && strings.HasPrefix(ev.Role, "Std:http.NewRequest") && len(ev.Results) == 2 && nilTri(p, ev.Results[1]) == triFalse {
 						reqFailed = true
 					}
 				}
@@ -215,8 +216,23 @@ func (c *Ctx) c14Import() {
 				if ev.Kind == pw.EvFieldWrite && ev.Field != nil && fname(ev.Field) == "RawQuery" && ev.Value != nil && ev.Value.Kind == pw.KCall && ev.Value.Ev.Role == "Std:url.Values.Encode" {
 					installed = true
 				}
-				if ev.Kind == pw.EvCall && ev.Role == "Std:http.NewRequest" && !installed {
+				if ev.Kind == pw.EvCall && strings.HasPrefix(ev.Role, "Std:http.NewRequest") && !installed {
 					r.Bad("R14.2", "HTTPTransfer.Import", "query-not-sent", c.Pos(ev.Pos), "the request is built before (or without) installing the name/typesHash query into the URL", shortTrace(p))
+				}
+			}
+			// a context made for the request stays alive until the body was read: cancelling it (net/http then closes the connection)
+			// before Restore truncates every dump that does not fit the first buffer
+			for i, ev := range g.events {
+				if ev.Kind != pw.EvCall || ev.CalleeVal == nil || ev.Callee != nil {
+					continue
+				}
+				cv := ev.CalleeVal
+				if cv.Kind == pw.KCall && cv.Idx == 1 && cv.Ev != nil && (cv.Ev.Role == "Std:context.WithTimeout" || cv.Ev.Role == "Std:context.WithCancel" || cv.Ev.Role == "Std:context.WithDeadline") && (ev.Frame == nil || !ev.Frame.Deferred) {
+					for _, later := range g.events[i+1:] {
+						if later.Kind == pw.EvCall && later.Role == "Repo:Restorer.Restore" {
+							r.Bad("R14.2", "HTTPTransfer.Import", "request-context-cancelled-before-body-read", c.Pos(ev.Pos), "the request's context is cancelled before the response body is handed to Restore: large dumps are cut off", shortTrace(p))
+						}
+					}
 				}
 			}
 			// what is sent
@@ -532,6 +548,15 @@ func (c *Ctx) c14Determinism() {
 		}
 		ast.Inspect(fd.Body, func(n ast.Node) bool {
 			switch x := n.(type) {
+			case *ast.Ident:
+				// the per-type fingerprint (everything below GobRegister itself) depends on the type only: it reads no package
+				// state such as the set of types registered so far (the result would depend on the registration order)
+				if name != "GobRegister" {
+					if v, ok := info.Uses[x].(*types.Var); ok && v.Parent() == c.Pkg.Types.Scope() {
+						bad = true
+						r.Bad("R14.4", name, "fingerprint-reads-package-state:"+pw.GlobalName(v), c.Pos(x.Pos()), "the fingerprint of a type reads the package variable "+v.Name()+": it then depends on what was registered before, i.e. on the registration order", nil)
+					}
+				}
 			case *ast.RangeStmt:
 				if t := info.TypeOf(x.X); t != nil {
 					if _, isMap := t.Underlying().(*types.Map); isMap {
